@@ -121,7 +121,7 @@ pub fn run_proof<G: Cv>(env: &Env<G>, prog: &Program, seed: u64) -> Out {
     for n in 0..bytes.len() {
         out.prefixes += 1;
         match guarded(|| R1CSProof::<G>::from_bytes(&bytes[..n])) {
-            Ok(Err(e)) if format!("{:?}", e) == "Proof data could not be parsed." => {}
+            Ok(Err(ark_bulletproofs::r1cs::R1CSError::FormatError)) => {}
             other => out.bad.push((json!({"curve": G::NAME, "program": prog.name(), "check": "strict prefix", "len": n}), "Err(FormatError)".into(), format!("{:?}", other.map(|r| r.map(|_| "Ok(proof)")))))
         }
     }
